@@ -640,7 +640,10 @@ def case_class(shape, api, form, scope, res):
 # ------------------------------------------------------------------------------------ rejections
 REJECTIONS = ['invalid_name', 'invalid_name_newline', 'invalid_module_newline', 'invalid_name_slash', 'invalid_module', 'other_object_same_name', 'allow_unknown',
               'deny_unknown', 'both_lists', 'allowlist_not_list', 'name_with_invalid_module_part', 'invalid_name_empty',
-              'same_object_again_allow_unknown', 'same_object_again_deny_unknown', 'same_object_again_both_lists']
+              'same_object_again_allow_unknown', 'same_object_again_deny_unknown', 'same_object_again_both_lists',
+              # interactive mode was LEFT before (more exits than enters, in several ways): outside it the rule holds
+              'other_object_same_name_after_unmatched_exit', 'other_object_same_name_after_enter_exit_exit',
+              'other_object_same_name_after_block_and_exit']
 
 
 class EqCallable:
@@ -705,9 +708,19 @@ def case_reject(kind, api, what, res):
     kw['module'] = 'bad..mod'
   elif kind == 'name_with_invalid_module_part':
     name = 'ok..name'
-  elif kind == 'other_object_same_name':
+  elif kind.startswith('other_object_same_name'):
     name = nm
     kw['module'] = 'c13'
+    if kind.endswith('after_unmatched_exit'):
+      gin.exit_interactive_mode()
+    elif kind.endswith('after_enter_exit_exit'):
+      gin.enter_interactive_mode()
+      gin.exit_interactive_mode()
+      gin.exit_interactive_mode()
+    elif kind.endswith('after_block_and_exit'):
+      with gin.config.interactive_mode():
+        pass
+      gin.exit_interactive_mode()
   elif kind == 'allow_unknown':
     kw['allowlist'] = ['nope']
   elif kind == 'deny_unknown':
@@ -721,7 +734,7 @@ def case_reject(kind, api, what, res):
   before_inv = dict(cfg._INVERSE_REGISTRY)
   before_renamed = dict(cfg._RENAMED_SELECTORS)
   before_vars = dict(vars(obj))
-  if what == 'equal_callable' and api != 'external_configurable' and kind != 'other_object_same_name':
+  if what == 'equal_callable' and api != 'external_configurable' and not kind.startswith('other_object_same_name'):
     pass
   try:
     if api == 'external_configurable':
